@@ -618,6 +618,138 @@ def l_spectext( ctx ):
     return _l_spec( ctx, Result( 'L-SPECTEXT' ), True )
 
 
+@rule( 'L-STRLEN', props=( 'C01', 'C14' ), floor=2 )
+def l_strlen( ctx ):
+    """STRING.produce / SSTRING.produce: behind the count, exactly `length` octets of text ( cut or NUL-filled ) plus - for STRING - one pad octet
+    when the length is odd.  Decided by interpreting the statements behind the emission of the count for a table of ( length, actual text
+    octets ) cells: length above, equal to and BELOW the text's own length, odd and even.  ( A fill count and the pad folded into one
+    product is negative for a text cut to an odd length: the pad is lost and the next element is parsed from a shifted position. )"""
+    res = Result( 'L-STRLEN' )
+    src = ctx.src( PARSER )
+    for cname, padded in (( 'STRING', True ), ( 'SSTRING', False )):
+        fn = src.get( cname + '.produce' )
+        # the statement that emits the count: result += <UINT|USINT>.produce( value.length )
+        cnt = [ a for a in fn.body if isinstance( a, ast.AugAssign ) and isinstance( a.op, ast.Add ) and is_call_to( a.value, 'UINT.produce', 'USINT.produce' ) and txt( a.value.args[0] ).endswith( '.length' ) ]
+        if len( cnt ) != 1:
+            raise AnalysisError( '%s.produce: emission of the count not found' % cname )
+        RES = dotted( cnt[0].target ); LEN = txt( cnt[0].value.args[0] )
+        tail = fn.body[fn.body.index( cnt[0] ) + 1:]
+        enc = [ a for a in fn.body if isinstance( a, ast.Assign ) and isinstance( a.value, ast.Call ) and isinstance( a.value.func, ast.Attribute ) and a.value.func.attr == 'encode' ]
+        act = [ a for a in fn.body if isinstance( a, ast.Assign ) and is_call_to( a.value, 'len' ) and enc and dotted( a.value.args[0] ) == dotted( enc[0].targets[0] ) ]
+        if not enc or not act:
+            raise AnalysisError( '%s.produce: encoded text / its length not found' % cname )
+        ENC, ACT = dotted( enc[0].targets[0] ), dotted( act[0].targets[0] )
+        def run( L_, A_ ):
+            env = { ACT: A_, ENC: b'x' * A_ }
+            class Sub( ast.NodeTransformer ):
+                def visit_Attribute( self, n ):
+                    return ast.Constant( value=L_ ) if txt( n ) == LEN else self.generic_visit( n ) or n
+            out = 0
+            def ev( e ):
+                v = try_fold( Sub().visit( ast.parse( ast.unparse( e ), mode='eval' ).body ), env, default=NoFold )
+                if v is NoFold:
+                    raise AnalysisError( '%s.produce: cannot evaluate %s' % ( cname, norm_text( e )))
+                return v
+            def block( stmts ):
+                nonlocal out
+                for st in stmts:
+                    if isinstance( st, ast.AugAssign ) and dotted( st.target ) == RES:
+                        out += len( ev( st.value ))
+                    elif isinstance( st, ast.If ):
+                        block( st.body if ev( st.test ) else st.orelse )
+                    elif isinstance( st, ast.Return ):
+                        return
+                    elif isinstance( st, ( ast.Expr, ast.Assert, ast.Pass )):
+                        continue
+                    else:
+                        raise AnalysisError( '%s.produce: statement outside the modelled subset behind the count: %s' % ( cname, norm_text( st )[:60] ))
+            block( tail )
+            return out
+        wrong = []
+        cells = [ ( L_, A_ ) for L_ in ( 0, 1, 2, 3, 4, 7 ) for A_ in ( 0, 1, 2, 3, 4, 7, 8 ) ]
+        for L_, A_ in cells:
+            got = run( L_, A_ )
+            want = L_ + ( L_ % 2 if padded else 0 )
+            res.cells += 1
+            if got != want:
+                wrong.append(( L_, A_, got, want ))
+        if wrong:
+            L_, A_, got, want = wrong[0]
+            res.bad( src, cnt[0], '%s.produce: length %d with %d octets of text emits %d octets behind the count, not %d ( %d of %d cells differ )' % ( cname, L_, A_, got, want, len( wrong ), len( cells )),
+                     'the element does not occupy length%s octets: every element behind it in the same request is parsed from a shifted position' % ( ' + pad' if padded else '' ))
+        else:
+            res.ok( src, cnt[0], '%s.produce: exactly length%s octets behind the count for all %d ( length, text ) cells' % ( cname, ' + pad' if padded else '', len( cells )))
+    return res
+
+
+@rule( 'G-EXACT', props=( 'C08', ), floor=2 )
+def g_exact( ctx ):
+    """STRING / SSTRING parsers: the count is a LIMIT on what the text may consume - when the input ends first, the '.*' body is content with
+    what there was.  A value is a [S]STRING only when the text holds all `length` octets: the body state is not terminal by itself, and every
+    way out of it is a decision whose predicate is false for a text shorter than the count ( evaluated on ( text, count ) samples ) - else a
+    Write Tag cut off inside a string stores the fragment and answers success"""
+    res = Result( 'G-EXACT' )
+    src = ctx.src( PARSER )
+    for cname in ( 'SSTRING', 'STRING' ):
+        fn = src.get( cname + '.__init__' )
+        body = [ a for a in ast.walk( fn ) if isinstance( a, ast.Assign ) and is_call_to( a.value, 'string_bytes' ) and any( k.arg == 'limit' for k in a.value.keywords ) ]
+        if len( body ) != 1:
+            raise AnalysisError( '%s.__init__: the length-limited string_bytes( ... limit= ... ) state not found' % cname )
+        b = body[0]
+        term = [ k for k in b.value.keywords if k.arg == 'terminal' and try_fold( k.value ) ]
+        names = [ t.id for t in b.targets if isinstance( t, ast.Name ) ]
+        exits = [ a for a in ast.walk( fn ) if isinstance( a, ast.Assign ) and any( isinstance( t, ast.Subscript ) and isinstance( t.value, ast.Name ) and t.value.id in names for t in a.targets ) ]
+        if term:
+            res.bad( src, b, '%s: the text state is terminal by itself' % cname,
+                     'a value whose text ends with the input before `length` octets were seen is accepted: a Write Tag cut off inside a string stores the fragment and is answered with success', func=cname + '.__init__' )
+            continue
+        if not exits:
+            raise AnalysisError( '%s.__init__: no transition out of the text state found' % cname )
+        lambdas = { a.targets[0].id: a.value for a in ast.walk( fn ) if isinstance( a, ast.Assign ) and isinstance( a.targets[0], ast.Name ) and isinstance( a.value, ast.Lambda ) }
+        def pred_of( e ):
+            if not is_call_to( e, 'decide', 'move_if' ):
+                return None
+            p_ = [ k.value for k in e.keywords if k.arg == 'predicate' ]
+            p_ = p_[0] if p_ else None
+            if isinstance( p_, ast.Name ):
+                p_ = lambdas.get( p_.id )
+            return p_ if isinstance( p_, ast.Lambda ) else None
+        def holds( lam, text, count ):
+            class Sub( ast.NodeTransformer ):
+                def visit_Attribute( self, n ):
+                    t_ = txt( n ).replace( ' ', '' )
+                    if t_ == 'data[path].string': return ast.Constant( value=text )
+                    if t_ == 'data[path].length': return ast.Constant( value=count )
+                    return self.generic_visit( n ) or n
+            v = try_fold( Sub().visit( ast.parse( ast.unparse( lam.body ), mode='eval' ).body ), {}, default=NoFold )
+            if v is NoFold:
+                raise AnalysisError( '%s.__init__: predicate outside the modelled subset: %s' % ( cname, norm_text( lam.body )[:80] ))
+            return bool( v )
+        bad = None
+        for a in exits:
+            lam = pred_of( a.value )
+            if lam is None:
+                # a state that must consume an octet is no way out for a text that fell short: the text ended because the input ( or an
+                # enclosing limit ) did, so the pad cannot be had either and the machine stays non-terminal
+                if is_call_to( a.value, 'octets_drop' ) and ( try_fold( dict(( k.arg, k.value ) for k in a.value.keywords ).get( 'repeat' )) or 0 ) >= 1:
+                    continue
+                bad = ( a, 'an unconditional way out of the text state' )
+                break
+            short = [ ( t, c ) for t, c in (( 'abc', 5 ), ( 'abc', 4 ), ( '', 1 ), ( 'abcd', 9 ), ( 'a', 2 )) if holds( lam, t, c ) ]
+            if short:
+                bad = ( a, 'the way out %s is taken for a text of %d octets under a count of %d' % ( norm_text( a.targets[0] ), len( short[0][0] ), short[0][1] ))
+                break
+        full = [ ( t, c ) for t, c in (( 'abc', 3 ), ( 'abcd', 4 ), ( 'a', 1 ), ( 'ab', 2 )) if not any( pred_of( a.value ) is None or holds( pred_of( a.value ), t, c ) for a in exits ) ]
+        if bad:
+            res.bad( src, bad[0], '%s: %s' % ( cname, bad[1] ),
+                     'a value whose text ends with the input before `length` octets were seen is accepted: a Write Tag cut off inside a string stores the fragment and is answered with success', func=cname + '.__init__' )
+        elif full:
+            res.bad( src, exits[0], '%s: no way out of the text state for a complete text of %d octets' % ( cname, full[0][1] ), 'a complete string value is refused', func=cname + '.__init__' )
+        else:
+            res.ok( src, b, '%s: the text state is left only by decisions that are false for a text shorter than its count, and one is true for each complete text ( %d exits )' % ( cname, len( exits )))
+    return res
+
+
 @rule( 'L-PRODUCIBLE', props=( 'C01', ), floor=8 )
 def l_producible( ctx ):
     """sibling exhaustiveness of the two dispatch tables of the encapsulation grammar: every class that CIP.COMMAND_PARSERS / CPF.ITEM_PARSERS
